@@ -2,14 +2,14 @@
 
 package hashing
 
-//@ spec func wrapperOK(t ref) bool = t != nil && t.Reader != nil && (t.CalculateSignature ==> t.hash != nil)
-
 //@ func Sum64
 //@   props C07 C01 C11 C18
 //@   pure
 //@   fresh r0
 //@   ensures len(ret) == 8
+//@   ensures[C01,C11,C18] is_fnv1a: content(ret) == sum64(key)
 //@   loop 1 invariant 0 <= i && i <= len(key)
+//@   loop 1 invariant[C01,C11,C18] hash == fnvpre(key, i)
 //@   loop 1 decreases len(key) - i
 
 //@ func HashingReaderWrapper.Read
